@@ -155,6 +155,14 @@ def check_unary_clauses(alg, ref, cfg, keys, res, shard, unit=False):
             b = elem(lambda: getattr(x, sel)(), sel, sel)
             if a is not None and b is not None and eq_elem(a, b):
                 V(f'{meth}:auto', f'{meth}() does not select {sel} for r={r}', show(b), show(a), f'print(x.{meth}(), x.{sel}())')
+        if r >= 2:
+            # 'exactly one null generator' selects Hodge duality: with two or more, auto mode must not silently pick one
+            res.evals += 1
+            try:
+                got = getattr(x, meth)()
+                V(f'{meth}:auto-r>1', f'{meth}() in an algebra with {r} null generators returns a value instead of refusing to choose', 'an exception', show(mvdict(got)[0]))
+            except Exception:
+                pass
         b = elem(lambda: getattr(x, hod)(), hod, hod)
         a = elem(lambda: getattr(x, meth)(kind='hodge'), meth + ':hodge', f"{meth}(kind='hodge')")
         if a is not None and b is not None and eq_elem(a, b):
